@@ -28,6 +28,9 @@ def _case(rng, N=None):
     fm = rng.normal(size=(N, N, n)) * 0.05
     c["FM"] = 0.5 * (fm + np.transpose(fm, (1, 0, 2)))
     c["state"] = int(rng.integers(0, N))
+    if rng.random() < 0.15:
+        c["mass"] = np.ceil(np.asarray(c["mass"], dtype=np.float64))
+        c["int_mass"] = True
     return c
 
 
@@ -153,6 +156,10 @@ def oracle_integrators_agree(args):
     """the exp and rk4 moment integrators agree as dt -> 0: their difference over one step shrinks at least ~4x per halving"""
     rng = np.random.Generator(np.random.PCG64(args["seed"]))
     c = _case(rng)
+    if args.get("int_mass") is not None:
+        c["int_mass"] = bool(args["int_mass"])
+        if c["int_mass"]:
+            c["mass"] = np.ceil(np.asarray(c["mass"], dtype=np.float64))
     diffs = []
     for k in range(3):
         c2 = dict(c)
@@ -405,7 +412,7 @@ def run(ctx):
         if not ok:
             ctx.oracle_fail("afssh-run-moments:" + a["integ"], "run_moments", a, obs, req, text)
     for i in range(ctx.budget(6, 100)):
-        a = {"seed": int(rng.integers(1, 10 ** 6)), "dt": 0.2, "which": ["R", "P"][i % 2]}
+        a = {"seed": int(rng.integers(1, 10 ** 6)), "dt": 0.2, "which": ["R", "P"][i % 2], "int_mass": i % 3 == 2}
         ok, obs, req, text = oracle_integrators_agree(a)
         ctx.case(("integrators-agree", a["which"]))
         ctx.count("integrators_agree")
